@@ -6,6 +6,22 @@ import MoneroModel.Spec.TxSkip
 open Monero
 /-! Driver for C03 (wire layout vs description) and C05 (transaction identifiers).
 Description token grammar: see DESIGN.md Appendix C / harness `src/desc.rs` (every list is `<count> item…`). -/
+/- structural equality of parsed values (the library's re-parse flag is `deserialize(serialize x) == x` on the structs) -/
+deriving instance BEq for Monero.TxIn
+deriving instance BEq for Monero.Target
+deriving instance BEq for Monero.TxOut
+deriving instance BEq for Monero.Prefix
+deriving instance BEq for Monero.Ecdh
+deriving instance BEq for Monero.Base
+deriving instance BEq for Monero.BP
+deriving instance BEq for Monero.BPP
+deriving instance BEq for Monero.MG
+deriving instance BEq for Monero.Clsag
+deriving instance BEq for Monero.Prunable
+deriving instance BEq for Monero.Tx
+deriving instance BEq for Monero.Header
+deriving instance BEq for Monero.Block
+
 namespace Drv
 namespace C03
 abbrev P (α : Type) := List String → Option (α × List String)
@@ -69,15 +85,31 @@ def idFromBytes (b : Bytes) (version p q : Nat) (isNull : Bool) : Bytes :=
   if version = 1 then K b else
   K (K (b.take p) ++ K ((b.drop p).take (q - p)) ++ (if isNull then List.replicate 32 0 else K (b.drop q)))
 
-/-- relation C of `c05_*`: identifier and prefix hash of the transaction that starts `b` (consumed part `b'`), computed from the raw bytes
-with the boundaries found by the by-the-book skipper `Spec.txBounds` (Spec/TxSkip.lean) — nothing from the model's parse.
-`-` where the definition does not apply (non-v1 without inputs); `skip-fail` if the skipper cannot walk bytes (never equal to a library answer) -/
-def specIdOfBytes (b' : Bytes) (tail : String) : String :=
-  match Spec.txBounds b' with
+/-- relation C of `c05_*`: identifier and prefix hash of the transaction that starts `b`, computed from the raw bytes with the
+boundaries found by the by-the-book skipper `Spec.txBounds` (Spec/TxSkip.lean) — nothing from the model's parse, except, for an
+embedded parse of a non-Null RingCT transaction, the END `k` of the consumed part (the skipper does not walk the prunable part; where the
+format fixes the end without it — version 1, no inputs, type Null — the skipper's own end `end?` is used for the hashed range and
+printed, and `k` is ignored). `strict`: the whole of `b` must be the transaction; if the skipper's end says otherwise the answer is
+`end-mismatch` (equal to no library answer).
+`-` where the definition does not apply (non-v1 without inputs); `skip-fail` if the skipper cannot walk the bytes (never equal to a library
+answer; impossible when the model accepts: Props/C05 `C05_bounds_are_skipper`) -/
+def specIdOfBytes (b : Bytes) (strict : Bool) (k : Nat) : String :=
+  match Spec.txBounds b with
   | none => "skip-fail"
   | some bd =>
-    if bd.version ≠ 1 ∧ !bd.hasRct then "-"
-    else s!"ok {Hex.encode (idFromBytes b' bd.version bd.p bd.q bd.isNull)} {Hex.encode (K (b'.take bd.p))}{tail}"
+    let e := match bd.end? with | some e => e | none => k
+    let b' := b.take e
+    if strict && e != b.length then s!"end-mismatch {e}"
+    else if bd.version ≠ 1 ∧ !bd.hasRct then "-"
+    else s!"ok {Hex.encode (idFromBytes b' bd.version bd.p bd.q bd.isNull)} {Hex.encode (K (b'.take bd.p))}{if strict then "" else s!" {e}"}"
+
+/-- model and spec answers for an embedded parse of `b`: identifier, prefix hash, bytes consumed -/
+def partialId (b : Bytes) : String × String :=
+  match tx b with
+  | some (t, r) =>
+    let k := b.length - r.length
+    (s!"ok {Hex.encode (txHash K t)} {Hex.encode (prefixHash K t.pre)} {k}", specIdOfBytes b false k)
+  | none => ("err", "-")
 
 def showTx (bytes : Bytes) (reparse : Bool) (id : Option Bytes) (ph : Bytes) : String :=
   s!"{Hex.encode bytes} {if reparse then "eq" else "ne"} {match id with | some i => Hex.encode i | none => "na"} {Hex.encode ph}"
@@ -90,7 +122,7 @@ def stepC03 : Step
     | some (d, []) =>
       let t := build d
       let e := encTx t
-      let ok := match tx e with | some (t', []) => encTx t' == e | _ => false
+      let ok := match tx e with | some (t', []) => t' == t | _ => false
       let mid := if t.pre.version ≠ 1 ∧ t.base.isNone then none else some (txHash K t)
       let sb := Spec.specTx d
       some (showTx e ok mid (prefixHash K t.pre), showTx sb true (Spec.specTxId K d) (Spec.specPrefixHash K d))
@@ -100,7 +132,7 @@ def stepC03 : Step
     | some (d, []) =>
       let bl := buildBlock d
       let e := encBlock bl
-      let ok := match block e with | some (b', []) => encBlock b' == e | _ => false
+      let ok := match block e with | some (b', []) => b' == bl | _ => false
       some (s!"{Hex.encode e} {if ok then "eq" else "ne"}", s!"{Hex.encode (Spec.specBlock d)} eq")
     | _ => some ("bad-desc", "bad-desc")
   | ["c05_txid", h] =>
@@ -115,16 +147,35 @@ def stepC03 : Step
       let s0 := if t.pre.version ≠ 1 ∧ t.base.isNone then "-" else s!"ok {Hex.encode (idFromBytes b t.pre.version p q isNull)} {Hex.encode (K (b.take p))}"
       -- independent boundaries (by-the-book skipper over the raw bytes); the boundaries of the model's parse (s0, a consequence of
       -- C05_id_rct) are kept as a cross-check: if the two disagree the spec side shows both and matches nothing
-      let s := specIdOfBytes b ""
+      let s := specIdOfBytes b true b.length
       some (m, if s == s0 then s else s!"{s} | model-boundaries: {s0}")
     | _ => some ("err", "-")
-  | ["c05_txid_partial", h] =>
+  | ["c05_txid_partial", h] => some (partialId (Hex.decode h))
+  -- the same question asked of the library through a short-reading reader (one byte per `read` call): same answers expected
+  | ["c05_txid_chunked", h] => some (partialId (Hex.decode h))
+  | ["c05_prefixhash", h] =>
     let b := Hex.decode h
-    match tx b with
-    | some (t, r) =>
-      let k := b.length - r.length
-      some (s!"ok {Hex.encode (txHash K t)} {Hex.encode (prefixHash K t.pre)} {k}", specIdOfBytes (b.take k) s!" {k}")
-    | none => some ("err", "-")
+    match prefix' b with
+    | some (p, []) =>
+      -- by the book: the prefix walked by the skipper must end exactly at the end of the bytes; its hash is the hash of the bytes
+      let s := match Spec.skipPrefix b with
+        | none => "skip-fail"
+        | some pe => if pe.rest.isEmpty then s!"ok {Hex.encode (K b)}" else s!"rest-left {pe.rest.length}"
+      some (s!"ok {Hex.encode (prefixHash K p)}", s)
+    | _ => some ("err", "-")
+  | "c05_id_noprun" :: rest =>
+    match txD rest with
+    | some (d, []) =>
+      match d.body with
+      | .v2 (some r) =>
+        if Spec.tyOf r == .Null then some ("bad-desc", "bad-desc") else
+        let t := build d
+        -- model: `Transaction::hash` on the struct with `p = None` (constant regenerated from the source);
+        -- spec side: the three-hash formula with the byte-reversed Keccak of the empty string as third component, over Spec/Wire bytes
+        some (Hex.encode (txHash K { t with prun := none }),
+              Hex.encode (K (K (Spec.specPrefix d) ++ K (Spec.specBase r) ++ (K []).reverse)))
+      | _ => some ("bad-desc", "bad-desc")
+    | _ => some ("bad-desc", "bad-desc")
   | "c03_enc" :: rest =>
     match txD rest with
     | some (d, []) =>
